@@ -113,7 +113,7 @@ def LiveCyc (s : MState) (c : Nat) : Prop :=
 theorem startUnit_hostUdp (s : MState) (c gen : Nat) (u : GUnit) (hk : u.kind = .hostUdp)
     (hpr : portRange s.cfg = none) (hl : LiveCyc s c) :
     ∃ mc ∈ (startUnit s c gen u).cands, mc.d = unitCand s.cfg u 0 0 := by
-  obtain ⟨kind, net, bind, url, n, mapped⟩ := u
+  obtain ⟨kind, net, bind, url, n, mapped, ifc⟩ := u
   simp only at hk
   subst hk
   have hfree : freePorts s bind = 1 := by simp [freePorts, hpr]
@@ -123,7 +123,7 @@ theorem startUnit_hostUdp (s : MState) (c gen : Nat) (u : GUnit) (hk : u.kind = 
     split at hpr
     · rename_i h; simp only [Bool.and_eq_true, beq_iff_eq] at h; exact h.1
     · simp at hpr
-  refine ⟨{ d := unitCand s.cfg ⟨.hostUdp, net, bind, url, n, mapped⟩ 0 0, gen := s.cyc.gen,
+  refine ⟨{ d := unitCand s.cfg ⟨.hostUdp, net, bind, url, n, mapped, ifc⟩ 0 0, gen := s.cyc.gen,
             res := [{ kind := .sock, tag := s.cyc.gen, addr := bind, inRange := (portRange s.cfg).isSome }] }, ?_, rfl⟩
   simp [startUnit, progOf, hostUdpProg, exec, acquireAns, stepAns, hfree, settle, jobLive, hl.1, hl.2,
     publishable, unitCand, candEqual, candEqualIn, zoned, hp0, hpf, Job.takeAll, Job.take]
@@ -134,7 +134,9 @@ theorem finishCycle_cands (s : MState) : (finishCycle s).cands = s.cands := by
   · rfl
   · split
     · rfl
-    · split <;> rfl
+    · split
+      · rfl
+      · unfold startMonitorIf; split <;> rfl
 
 /-- the host part of a cycle with the gate open and no UDP mux: every unit of `hostIfaceUnits` of kind
 hostUdp has its candidate in the list after `runCycleUnits` -/
@@ -201,9 +203,12 @@ theorem step_gather_new (s : MState) (hnc : s.cyc.closed = false) (hnew : s.cyc.
   have hget : (Cycle.cancelAll s.cyc.cycles ++ [({ gen := s.cyc.gen } : Cycle.Cyc)])[s.cyc.cycles.length]?
       = some { gen := s.cyc.gen } := by
     simp [Cycle.cancelAll, List.getElem?_append]
-  refine ⟨{ s with cyc := (Cycle.step false (Cycle.step false s.cyc .gather).1 (.start s.cyc.cycles.length)).1 },
-    rfl, rfl, ?_, ?_⟩
+  have hrk : ∀ x : MState, (recordKnown x).cfg = x.cfg ∧ (recordKnown x).ifs = x.ifs ∧ (recordKnown x).cyc = x.cyc := by
+    intro x; unfold recordKnown; split <;> exact ⟨rfl, rfl, rfl⟩
+  refine ⟨recordKnown { s with cyc := (Cycle.step false (Cycle.step false s.cyc .gather).1 (.start s.cyc.cycles.length)).1 },
+    (hrk _).1, (hrk _).2.1, ?_, ?_⟩
   · unfold LiveCyc
+    rw [(hrk _).2.2]
     simp only
     rw [h1]
     have hstart : (Cycle.step false
